@@ -360,12 +360,27 @@ class _Run:
     # ------------------------------------------------------------------------------------
     def compare(self, exp_rows, cursor, what: str) -> bool:
         term = self.term
+        if self.partial:
+            # normal screen buffer: the display owns the rows down to the last one that ever held something other than
+            # spaces ("leave blank lines off display"); below that the terminal keeps what it had - nothing
+            self.rows_owned = max([self.rows_owned, *(y for y, exp in enumerate(exp_rows) if any(c[0] != " " for c in exp))])
         for y, exp in enumerate(exp_rows):
             row = term.grid[y]
+            if self.partial and y > self.rows_owned:
+                if term.row_text(y).strip():
+                    self.violate("C04.1", f"cell-text-differ {what} [below the rows in use]", f"row {y} is below the rows the display uses ({self.rows_owned}) and shows {term.row_text(y)!r}")
+                    return False
+                continue
+            spaces_only = self.partial and all(c[0] == " " for c in exp)
             for x, (ch, a_key, cs, wide) in enumerate(exp):
                 c = row[x]
                 want = visible_key(ch, self.resolve(a_key), cs, wide)
                 got = visible_key(c.ch, c.attr, c.cs, c.wide)
+                if spaces_only and want != got and c.ch == " ":
+                    # "leave blank lines off display when we are using the default screen buffer": a row of spaces may be
+                    # left as the terminal had it, whatever its attribute (text is still compared)
+                    self.res.probe("normal_buffer_row_of_spaces_left_off")
+                    continue
                 if want != got:
                     kind = "text" if (want[0] != got[0] or want[-1] != got[-1]) else "attributes"
                     self.violate(
@@ -417,7 +432,15 @@ class _Run:
                 screen.register_palette_entry(*p)
             screen.register_palette([("alias", "p1")])
             w.log.add("cfg", [self.enc, self.colors, cols, rows, cfg.get("bce", True), cfg.get("bright_is_bold", False), cfg.get("bright_is_blink", False)])
-            screen.start()
+            self.partial = cfg.get("altbuf") is False
+            self.rows_owned = 0
+            if cfg.get("altbuf") is False:
+                # the normal screen buffer ("partial display": the frame is drawn from the cursor's row downwards with
+                # relative moves, blank rows at the bottom are left alone); the terminal is blank with the cursor at home
+                screen.start(alternate_buffer=False)
+                res.probe("normal_screen_buffer")
+            else:
+                screen.start()
             size = screen.get_cols_rows()
             pending_in_write = None  # (write index, cols, rows) for the next frame
             resized_during = [False]
@@ -672,13 +695,14 @@ class DisplayEngine(Engine):
         "RefTerm (simkit/refterm.py, written from the VT100/xterm documents) is the terminal; on resize it keeps content anchored top-left like xterm",
         "blank cells are compared by effective background and underline only (what a user can see)",
         "palette changes after start() without clear() are not generated (urwid documents no repaint for them)",
+        "one session in eight runs on the normal screen buffer (start(alternate_buffer=False), the terminal blank with the cursor at home): no window changes and no C0 control characters there; rows below the last one that ever held a non-space character belong to the terminal (they must stay empty), and a row of spaces may be left as the terminal had it whatever its attribute (urwid leaves blank lines off that display by design)",
         "character widths by Unicode east-asian-width/combining class; generators use characters on which urwid's table agrees",
     ]
     components = {
         "real": ["_posix_raw_display.Screen / _raw_display_base.Screen.draw_screen, _last_row, _attrspec_to_escape, clear, set_terminal_properties", "escape constants", "AttrSpec", "TextCanvas/CompositeCanvas", "HtmlGenerator"],
         "stub": ["tty (fake fd, TIOCGWINSZ)", "resize socket pair", "signal delivery (handler called at scheduled write)", "terminal (RefTerm)"],
     }
-    required_probes = ("frame_compared_incremental", "frame_compared_after-resize", "frame_skipped_resize_pending", "frame_drawn_with_stale_size", "palette_entry_none_registered")
+    required_probes = ("frame_compared_incremental", "frame_compared_after-resize", "frame_skipped_resize_pending", "frame_drawn_with_stale_size", "palette_entry_none_registered", "normal_screen_buffer")
     reducible = ("ops",)
     _ctl = False
 
@@ -751,6 +775,9 @@ class DisplayEngine(Engine):
         # C0 control characters in canvas text: always possible in narrow/wide encodings, only in a
         # fraction of the UTF-8 runs (there they hit a known finding that masks everything else)
         self._ctl = rng.random() < (0.5 if enc != "utf8" else 0.15)
+        altbuf_off = rng.random() < 0.12
+        if altbuf_off:
+            self._ctl = False  # (a row of C0 whitespace counts as blank there although it is painted as '?')
         cols, rows = rng.choice([(1, 1), (2, 2), (1, 5), (7, 1), (10, 4), (20, 6), (40, 12), (rng.randint(1, 40), rng.randint(1, 12))])
         cfg = {
             "enc": enc,
@@ -763,6 +790,8 @@ class DisplayEngine(Engine):
         }
         if rng.random() < 0.2:
             cfg["none_entry"] = rng.randrange(len(NONE_ENTRIES))
+        if altbuf_off:
+            cfg["altbuf"] = False  # start(alternate_buffer=False); no window changes there (a terminal reflows its normal buffer)
         ops = []
         prev = None
         n = rng.randint(1, 12)
@@ -777,7 +806,7 @@ class DisplayEngine(Engine):
                 ops.append({"op": "frame", "f": prev})
             elif r < 0.70:
                 ops.append({"op": "clear"})
-            elif r < 0.88 and resizes < 3:
+            elif r < 0.88 and resizes < 3 and not altbuf_off:
                 resizes += 1
                 c2, r2 = rng.choice([(cols, rows), (max(1, cols - 3), rows), (cols, max(1, rows - 1)), (cols + 4, rows + 2), (rng.randint(1, 40), rng.randint(1, 12))])
                 mode = rng.random()
